@@ -419,7 +419,7 @@ var recTypeName = map[int64]string{1: "metadata", 2: "entry", 3: "state", 4: "cr
 
 // Fault describes how an on-disk image is derived from a kill image.
 type Fault struct {
-	Kind string `json:"kind"` // clean | trunc-eof | trunc-zero | zero-sector | zero-earlier-segment | sector-subset | bitflip
+	Kind string `json:"kind"` // clean | trunc-eof | trunc-zero | zero-sector | zero-gap | zero-earlier-segment | sector-subset | bitflip
 	File string `json:"file,omitempty"`
 	Off  int64  `json:"off,omitempty"`
 	// sector-subset: sectors [Off/512 .. +N) of the unsynced region; bit i of Mask set = sector i reached
@@ -429,6 +429,7 @@ type Fault struct {
 	Bit  uint   `json:"bit,omitempty"`  // bitflip: bit number within the byte at Off
 	What string `json:"what,omitempty"` // bitflip: which field (len, type, crc, dlen, payload, pad) of which record type
 	Drop bool   `json:"drop,omitempty"` // remove the segment files after File (the crash happened before the cut created them)
+	Gap  int64  `json:"gap,omitempty"`  // zero-gap: bytes [Off,Off+Gap) did not reach disk, everything behind them did
 	Lo   int64  `json:"lo,omitempty"`   // sector-subset: start of the unsynced region (bytes before it stay as they are)
 	Size int64  `json:"size,omitempty"` // size File has in the faulted image when not implied (trunc-zero on a segment that the cut shortened)
 }
@@ -441,6 +442,8 @@ func (f Fault) String() string {
 		return fmt.Sprintf("bitflip %s@%d bit %d (%s)", f.File, f.Off, f.Bit, f.What)
 	case "sector-subset":
 		return fmt.Sprintf("sector-subset %s@%d n=%d mask=%b", f.File, f.Off, f.N, f.Mask)
+	case "zero-gap":
+		return fmt.Sprintf("zero-gap %s@%d+%d", f.File, f.Off, f.Gap)
 	}
 	return fmt.Sprintf("%s %s@%d", f.Kind, f.File, f.Off)
 }
@@ -485,6 +488,19 @@ func (f Fault) apply(im *Image, base *Image) (*Image, error) {
 			n = int64(len(cur.Data))
 		}
 		out.Files[idx] = File{Name: cur.Name, Data: trimZeros(cur.Data[:n:n]), Size: size}
+	case "zero-gap":
+		// the leading sectors of the unsynced write are missing (durable content,
+		// i.e. zeros of the preallocated space), the later sectors reached disk
+		nb := make([]byte, len(cur.Data))
+		copy(nb, cur.Data)
+		for x := f.Off; x < f.Off+f.Gap && x < int64(len(nb)); x++ {
+			if old != nil {
+				nb[x] = old.at(x)
+			} else {
+				nb[x] = 0
+			}
+		}
+		out.Files[idx] = File{Name: cur.Name, Data: trimZeros(nb), Size: size}
 	case "sector-subset":
 		// bytes before the window: current; window sectors: current if the mask
 		// bit is set, else the durable content; after the window: durable content
